@@ -1,7 +1,596 @@
-//! C32 — not built yet.
-use lv_common::Ctx;
+//! C32 — Header-ex requests are retried boundedly and answered once.
+//!
+//! `ClientSim` (see hex_client_sim.rs). A case is a peer population, 1..6 non-head requests with unique
+//! origins / hashes (so every observed send is attributed to its request), a per-attempt outcome script per
+//! request, and a schedule of harness actions (submit, tick, deliver one outstanding answer, drop a caller,
+//! connect / disconnect / mark-archival a peer, stop). After the schedule the harness drains to quiescence
+//! (ticks + delivery of everything outstanding until nothing moves) and judges liveness there.
+use std::sync::atomic::Ordering;
 
-pub fn run(_ctx: &mut Ctx) {
-    eprintln!("C32: check not built yet");
-    std::process::exit(2);
+use celestia_proto::p2p::pb::header_request::Data;
+use celestia_proto::p2p::pb::{HeaderRequest, StatusCode};
+use celestia_types::ExtendedHeader;
+use lv_common::prelude::*;
+use tokio::sync::oneshot::error::TryRecvError;
+
+use crate::hex_client_sim::*;
+
+const MAX_REQS: usize = 6;
+const STRIDE: usize = 3;
+const START: u64 = 20;
+
+#[derive(Clone, Debug, Serialize, Deserialize)]
+pub enum Outcome {
+    /// exactly the requested headers
+    Valid,
+    /// a non-empty strict prefix of the requested range (valid; same as Valid for amount 1 / hash requests)
+    ValidPrefix,
+    /// first header fails validation
+    BadHeader { bad_sig: bool },
+    /// a valid header of another height / another hash
+    WrongHeader,
+    /// amount + 1 headers
+    TooMany,
+    NotFound,
+    InvalidStatus,
+    /// outbound failure
+    Fail(u8),
+}
+
+#[derive(Clone, Debug, Serialize, Deserialize)]
+pub enum ReqKind {
+    Height { amount: u8 },
+    Hash,
+}
+
+#[derive(Clone, Debug, Serialize, Deserialize)]
+pub struct ReqSpec {
+    pub kind: ReqKind,
+    /// outcome of attempt 1, 2, 3
+    pub script: Vec<Outcome>,
+}
+
+#[derive(Clone, Debug, Serialize, Deserialize)]
+pub enum Step {
+    Submit,
+    Tick,
+    Deliver(u16),
+    DropCaller(u16),
+    Connect(u16),
+    Disconnect(u16),
+    MarkArchival(u16),
+}
+
+#[derive(Clone, Debug, Serialize, Deserialize)]
+pub struct Case {
+    pub seed: u64,
+    pub peers: Vec<PeerSpec>,
+    pub reqs: Vec<ReqSpec>,
+    /// requests submitted before the first step
+    pub initial: u8,
+    pub steps: Vec<Step>,
+    /// `stop` is called before this step (or right after the last one)
+    pub stop_before: Option<u8>,
+}
+
+fn outcome_strategy() -> impl Strategy<Value = Outcome> {
+    prop_oneof![
+        5 => Just(Outcome::Valid),
+        1 => Just(Outcome::ValidPrefix),
+        2 => any::<bool>().prop_map(|bad_sig| Outcome::BadHeader { bad_sig }),
+        2 => Just(Outcome::WrongHeader),
+        1 => Just(Outcome::TooMany),
+        3 => Just(Outcome::NotFound),
+        1 => Just(Outcome::InvalidStatus),
+        4 => (0u8..5).prop_map(Outcome::Fail),
+    ]
+}
+
+fn case_strategy(max_steps: usize) -> impl Strategy<Value = Case> {
+    let peer = (prop::bool::weighted(0.4), prop::bool::weighted(0.75), prop::bool::weighted(0.35)).prop_map(|(trusted, connected, archival)| PeerSpec {
+        trusted,
+        connected,
+        archival,
+    });
+    let req = (
+        prop_oneof![3 => (1u8..=3).prop_map(|amount| ReqKind::Height { amount }), 1 => Just(ReqKind::Hash)],
+        prop::collection::vec(outcome_strategy(), 3),
+    )
+        .prop_map(|(kind, script)| ReqSpec { kind, script });
+    let step = prop_oneof![
+        2 => Just(Step::Submit),
+        5 => Just(Step::Tick),
+        8 => any::<u16>().prop_map(Step::Deliver),
+        1 => any::<u16>().prop_map(Step::DropCaller),
+        1 => any::<u16>().prop_map(Step::Connect),
+        1 => any::<u16>().prop_map(Step::Disconnect),
+        1 => any::<u16>().prop_map(Step::MarkArchival),
+    ];
+    (
+        any::<u64>(),
+        prop::collection::vec(peer, 0..=8),
+        prop::collection::vec(req, 1..=MAX_REQS),
+        0u8..=3,
+        prop::collection::vec(step, 0..=max_steps),
+        prop::option::weighted(0.25, 0u8..=(max_steps as u8)),
+    )
+        .prop_map(|(seed, peers, reqs, initial, steps, stop_before)| Case {
+            seed,
+            peers,
+            reqs,
+            initial,
+            steps,
+            stop_before,
+        })
+}
+
+/// What the harness answered to one send.
+#[derive(Clone, Debug, PartialEq)]
+enum Delivered {
+    Valid(Vec<ExtendedHeader>),
+    Err(ErrClass),
+}
+
+struct Send {
+    id: u64,
+    peer: usize,
+    delivered: Option<Delivered>,
+}
+
+struct Req {
+    request: HeaderRequest,
+    submitted: bool,
+    submitted_after_stop: bool,
+    rx: Option<SimAnswerReceiver>,
+    dropped: bool,
+    sends: Vec<Send>,
+    /// value read from the caller's channel
+    answer: Option<Result<Vec<ExtendedHeader>, ErrClass>>,
+}
+
+struct World {
+    d: Driver,
+    pool: HeaderPool,
+    reqs: Vec<Req>,
+    stopped: bool,
+}
+
+impl World {
+    fn request_for(pool: &HeaderPool, i: usize, kind: &ReqKind) -> HeaderRequest {
+        let idx = i * STRIDE;
+        match kind {
+            ReqKind::Height { amount } => HeaderRequest {
+                data: Some(Data::Origin(START + idx as u64)),
+                amount: *amount as u64,
+            },
+            ReqKind::Hash => HeaderRequest {
+                data: Some(Data::Hash(pool.chain.headers[idx].hash().as_bytes().to_vec())),
+                amount: 1,
+            },
+        }
+    }
+
+    fn submit_next(&mut self, obs: &mut Obs) {
+        if let Some(r) = self.reqs.iter_mut().find(|r| !r.submitted) {
+            r.submitted = true;
+            r.submitted_after_stop = self.stopped;
+            r.rx = Some(self.d.sim.send_request(r.request.clone()));
+            if self.stopped {
+                obs.label("submitted-after-stop");
+            }
+        }
+    }
+
+    /// outstanding (undelivered) sends as (request index, send index), ordered by send id
+    fn outstanding(&self) -> Vec<(usize, usize)> {
+        let mut v: Vec<(u64, usize, usize)> = Vec::new();
+        for (ri, r) in self.reqs.iter().enumerate() {
+            for (si, s) in r.sends.iter().enumerate() {
+                if s.delivered.is_none() {
+                    v.push((s.id, ri, si));
+                }
+            }
+        }
+        v.sort();
+        v.into_iter().map(|x| (x.1, x.2)).collect()
+    }
+
+    /// materialise the scripted outcome of attempt `si` of request `ri` and inject it
+    fn deliver(&mut self, case: &Case, ri: usize, si: usize, force_closed: bool) {
+        let idx = ri * STRIDE;
+        let spec = &case.reqs[ri];
+        let amount = match spec.kind {
+            ReqKind::Height { amount } => amount as usize,
+            ReqKind::Hash => 1,
+        };
+        let outcome = if force_closed { Outcome::Fail(1) } else { spec.script[si.min(spec.script.len() - 1)].clone() };
+        let peer = self.d.peers[self.reqs[ri].sends[si].peer];
+        let id = self.reqs[ri].sends[si].id;
+        let full: Vec<ExtendedHeader> = (0..amount).map(|k| self.pool.get(idx + k, 0)).collect();
+        let delivered = match outcome {
+            Outcome::Valid => {
+                self.d.sim.on_response(peer, id, full.iter().map(resp_ok).collect());
+                Delivered::Valid(full)
+            }
+            Outcome::ValidPrefix => {
+                let n = if amount > 1 { amount - 1 } else { 1 };
+                let part = full[..n].to_vec();
+                self.d.sim.on_response(peer, id, part.iter().map(resp_ok).collect());
+                Delivered::Valid(part)
+            }
+            Outcome::BadHeader { bad_sig } => {
+                let mut rs = vec![resp_ok(&self.pool.invalid(idx, bad_sig))];
+                rs.extend(full[1..].iter().map(resp_ok));
+                self.d.sim.on_response(peer, id, rs);
+                Delivered::Err(ErrClass::InvalidResponse)
+            }
+            Outcome::WrongHeader => {
+                let h = match spec.kind {
+                    ReqKind::Height { .. } => self.pool.get(idx + 1, 0),
+                    ReqKind::Hash => self.pool.get(idx, 1),
+                };
+                self.d.sim.on_response(peer, id, vec![resp_ok(&h)]);
+                Delivered::Err(ErrClass::InvalidResponse)
+            }
+            Outcome::TooMany => {
+                let mut hs = full.clone();
+                hs.push(self.pool.get(idx + amount, 0));
+                self.d.sim.on_response(peer, id, hs.iter().map(resp_ok).collect());
+                Delivered::Err(ErrClass::InvalidResponse)
+            }
+            Outcome::NotFound => {
+                self.d.sim.on_response(peer, id, vec![resp_status(StatusCode::NotFound)]);
+                Delivered::Err(ErrClass::NotFound)
+            }
+            Outcome::InvalidStatus => {
+                self.d.sim.on_response(peer, id, vec![resp_status(StatusCode::Invalid)]);
+                Delivered::Err(ErrClass::InvalidResponse)
+            }
+            Outcome::Fail(k) => {
+                let f = failure_kind(k);
+                self.d.sim.on_failure(peer, id, f);
+                Delivered::Err(ErrClass::Outbound(f))
+            }
+        };
+        self.reqs[ri].sends[si].delivered = Some(delivered);
+    }
+
+    /// Attribute and check the sends observed during the last `run_for`, then read the callers' channels.
+    fn observe(&mut self, obs: &mut Obs) -> Result<(), Failure> {
+        for s in self.d.take_sends() {
+            let Some(ri) = self.reqs.iter().position(|r| r.request == s.request) else {
+                return obs.fail("C32:unknown-request-sent", format!("a request nobody submitted was sent: {:?}", s.request));
+            };
+            let Some(pi) = self.d.peer_index(&s.peer) else {
+                return obs.fail("C32:sent-to-unknown-peer", format!("request #{ri} sent to unknown peer {}", s.peer));
+            };
+            let st = self.d.state(pi);
+            let attempt = self.reqs[ri].sends.len() + 1;
+            let r = &self.reqs[ri];
+            obs.check(r.submitted, "C32:unknown-request-sent", || format!("request #{ri} sent before it was submitted"))?;
+            obs.check(attempt <= 3, "C32:more-than-three-sends", || format!("request #{ri} ({:?}) sent a {attempt}th time", r.request))?;
+            obs.check(st.connected, "C32:sent-to-disconnected-peer", || format!("request #{ri} attempt {attempt} sent to peer #{pi} which is not connected ({st:?})"))?;
+            if attempt == 3 {
+                obs.check(st.archival, "C32:third-send-not-archival", || format!("request #{ri}: third send went to peer #{pi} which is not archival ({st:?})"))?;
+                obs.label("third-send-to-archival-peer");
+            }
+            obs.check(r.answer.is_none(), "C32:send-after-answer", || format!("request #{ri} sent again (attempt {attempt}) after its caller had been answered with {:?}", r.answer.as_ref().map(|a| a.as_ref().map(|v| v.len()))))?;
+            obs.check(!r.dropped, "C32:send-after-caller-dropped", || format!("request #{ri} sent (attempt {attempt}) although its caller had dropped the receiver"))?;
+            if r.sends.iter().any(|x| x.delivered.is_none()) {
+                // two copies of one request in flight: the harness cannot order their outcomes
+                BUDGET_OVERRUN.store(true, Ordering::SeqCst);
+            }
+            if attempt >= 2 {
+                obs.label("retry-sent");
+            }
+            self.reqs[ri].sends.push(Send {
+                id: s.id,
+                peer: pi,
+                delivered: None,
+            });
+        }
+
+        for ri in 0..self.reqs.len() {
+            if self.reqs[ri].answer.is_some() || self.reqs[ri].rx.is_none() {
+                continue;
+            }
+            let res = self.reqs[ri].rx.as_mut().unwrap().try_recv();
+            let r = &self.reqs[ri];
+            let delivered: Vec<&Delivered> = r.sends.iter().filter_map(|s| s.delivered.as_ref()).collect();
+            match res {
+                Err(TryRecvError::Empty) => {}
+                Err(TryRecvError::Closed) => {
+                    return obs.fail("C32:caller-channel-closed", format!("request #{ri}: the caller's channel was closed without a value"));
+                }
+                Ok(Ok(hs)) => {
+                    let first_valid = delivered.iter().find_map(|d| match d {
+                        Delivered::Valid(v) => Some(v),
+                        _ => None,
+                    });
+                    match first_valid {
+                        Some(v) => {
+                            obs.check(hs.len() == v.len() && hs.iter().zip(v.iter()).all(|(a, b)| a.hash() == b.hash() && a.height() == b.height()), "C32:answer-differs-from-first-valid-response", || {
+                                format!(
+                                    "request #{ri}: caller received heights {:?}, the first valid response had heights {:?}",
+                                    hs.iter().map(|h| h.height()).collect::<Vec<_>>(),
+                                    v.iter().map(|h| h.height()).collect::<Vec<_>>()
+                                )
+                            })?;
+                        }
+                        None => {
+                            return obs.fail("C32:ok-answer-without-valid-response", format!("request #{ri}: caller received Ok({} headers) but no valid response was delivered ({delivered:?})", hs.len()));
+                        }
+                    }
+                    obs.label(match delivered.len() {
+                        1 => "answered-ok-first-attempt",
+                        2 => "answered-ok-second-attempt",
+                        _ => "answered-ok-third-attempt",
+                    });
+                    self.reqs[ri].answer = Some(Ok(hs));
+                }
+                Ok(Err(e)) => {
+                    let class = err_class(&e);
+                    if class == ErrClass::Cancelled {
+                        obs.check(self.stopped, "C32:cancelled-without-stop", || format!("request #{ri}: caller received RequestCancelled although the client was not stopped"))?;
+                        obs.label("cancelled-by-stop");
+                    } else {
+                        obs.check(!delivered.iter().any(|d| matches!(d, Delivered::Valid(_))), "C32:error-answer-despite-valid-response", || {
+                            format!("request #{ri}: caller received error {class:?} although a valid response had been delivered")
+                        })?;
+                        obs.check(r.sends.iter().all(|s| s.delivered.is_some()), "C32:error-answer-while-attempt-outstanding", || {
+                            format!("request #{ri}: caller received error {class:?} while an attempt is still outstanding")
+                        })?;
+                        match delivered.last() {
+                            Some(Delivered::Err(last)) => {
+                                obs.check(*last == class, "C32:error-is-not-the-last-error", || {
+                                    format!("request #{ri}: caller received {class:?} but the last attempt failed with {last:?} (attempts: {delivered:?})")
+                                })?;
+                            }
+                            _ => {
+                                return obs.fail("C32:error-answer-without-failed-attempt", format!("request #{ri}: caller received {class:?} ({e}) without any failed attempt"));
+                            }
+                        }
+                        // "final error": the client gives up only when its three attempts are used up (the other
+                        // non-retryable causes, invalid request and stop, are not generated / handled above)
+                        obs.check(delivered.len() == 3, "C32:error-answer-before-final-attempt", || {
+                            format!("request #{ri}: caller received {class:?} after only {} attempt(s) ({delivered:?}); a retryable error is final only after the third attempt", delivered.len())
+                        })?;
+                        obs.label("answered-final-error-after-three-attempts");
+                    }
+                    self.reqs[ri].answer = Some(Err(class));
+                }
+            }
+        }
+        Ok(())
+    }
+}
+
+fn run_case(case: &Case, obs: &mut Obs) -> Result<(), Failure> {
+    let rt = runtime();
+    rt.block_on(async {
+        let pool = HeaderPool::new(case.seed, START, MAX_REQS * STRIDE + 2)?;
+        let reqs: Vec<Req> = case
+            .reqs
+            .iter()
+            .enumerate()
+            .map(|(i, spec)| Req {
+                request: World::request_for(&pool, i, &spec.kind),
+                submitted: false,
+                submitted_after_stop: false,
+                rx: None,
+                dropped: false,
+                sends: Vec::new(),
+                answer: None,
+            })
+            .collect();
+        let mut w = World {
+            d: Driver::new(&case.peers),
+            pool,
+            reqs,
+            stopped: false,
+        };
+        let np = case.peers.len();
+        for _ in 0..case.initial {
+            w.submit_next(obs);
+        }
+        let stop_at = case.stop_before.map(|s| (s as usize).min(case.steps.len()));
+
+        for k in 0..=case.steps.len() {
+            if stop_at == Some(k) && !w.stopped {
+                w.d.sim.stop();
+                w.stopped = true;
+                obs.label("stopped");
+                w.d.run_for(SETTLE).await;
+                w.observe(obs)?;
+                // after `stop` every caller has an answer
+                for (ri, r) in w.reqs.iter().enumerate() {
+                    if r.submitted && !r.dropped {
+                        obs.check(r.answer.is_some(), "C32:no-answer-after-stop", || format!("request #{ri}: caller has no answer after stop ({} sends)", r.sends.len()))?;
+                    }
+                }
+            }
+            let Some(step) = case.steps.get(k) else { break };
+            match step {
+                Step::Submit => {
+                    w.submit_next(obs);
+                    w.d.run_for(SETTLE).await;
+                }
+                Step::Tick => w.d.run_for(TICK).await,
+                Step::Deliver(sel) => {
+                    let out = w.outstanding();
+                    if !out.is_empty() {
+                        let (ri, si) = out[pick(*sel, out.len())];
+                        if w.reqs[ri].dropped {
+                            obs.label("answer-delivered-after-caller-dropped");
+                        }
+                        if w.stopped {
+                            obs.label("answer-delivered-after-stop");
+                        }
+                        w.deliver(case, ri, si, false);
+                        w.d.run_for(SETTLE).await;
+                    }
+                }
+                Step::DropCaller(sel) => {
+                    let live: Vec<usize> = (0..w.reqs.len()).filter(|&i| w.reqs[i].submitted && !w.reqs[i].dropped && w.reqs[i].answer.is_none()).collect();
+                    if !live.is_empty() {
+                        let ri = live[pick(*sel, live.len())];
+                        // do not lose an answer that is already in the channel
+                        w.observe(obs)?;
+                        if w.reqs[ri].answer.is_none() {
+                            w.reqs[ri].dropped = true;
+                            w.reqs[ri].rx = None;
+                            obs.label(if w.reqs[ri].sends.iter().any(|s| s.delivered.is_none()) { "caller-dropped-with-attempt-in-flight" } else { "caller-dropped-while-pending" });
+                        }
+                        w.d.run_for(SETTLE).await;
+                    }
+                }
+                Step::Connect(sel) if np > 0 => {
+                    let i = pick(*sel, np);
+                    let id = w.d.peers[i];
+                    w.d.sim.add_connection(&id, i);
+                    w.d.run_for(SETTLE).await;
+                }
+                Step::Disconnect(sel) if np > 0 => {
+                    let i = pick(*sel, np);
+                    let id = w.d.peers[i];
+                    if w.d.state(i).connected {
+                        w.d.sim.remove_connection(&id, i);
+                        // libp2p fails every outstanding request on a closed connection
+                        let mut failed = false;
+                        for (ri, si) in w.outstanding() {
+                            if w.reqs[ri].sends[si].peer == i {
+                                w.deliver(case, ri, si, true);
+                                failed = true;
+                            }
+                        }
+                        if failed {
+                            obs.label("peer-disconnected-with-request-in-flight");
+                        }
+                    }
+                    w.d.run_for(SETTLE).await;
+                }
+                Step::MarkArchival(sel) if np > 0 => {
+                    let i = pick(*sel, np);
+                    let id = w.d.peers[i];
+                    w.d.sim.mark_as_archival(&id);
+                    w.d.run_for(SETTLE).await;
+                }
+                _ => {}
+            }
+            w.observe(obs)?;
+        }
+
+        // ---- drain to quiescence: submit what is left, then tick / deliver until nothing moves
+        while w.reqs.iter().any(|r| !r.submitted) {
+            w.submit_next(obs);
+        }
+        let mut rounds = 0;
+        loop {
+            w.d.run_for(TICK).await;
+            w.observe(obs)?;
+            let out = w.outstanding();
+            if out.is_empty() {
+                break;
+            }
+            for (ri, si) in out {
+                w.deliver(case, ri, si, false);
+                w.d.run_for(SETTLE).await;
+                w.observe(obs)?;
+            }
+            rounds += 1;
+            if rounds > 20 {
+                BUDGET_OVERRUN.store(true, Ordering::SeqCst);
+                return Ok(());
+            }
+        }
+        // one more tick with nothing outstanding: nothing may move any more
+        w.d.run_for(TICK).await;
+        w.observe(obs)?;
+        if !w.outstanding().is_empty() {
+            BUDGET_OVERRUN.store(true, Ordering::SeqCst);
+            return Ok(());
+        }
+
+        // ---- verdict per request at the quiescent point
+        let any_connected = (0..np).any(|i| w.d.state(i).connected);
+        let archival_connected = (0..np).any(|i| { let s = w.d.state(i); s.connected && s.archival });
+        for (ri, r) in w.reqs.iter().enumerate() {
+            let attempts = r.sends.len();
+            let digest = digest_of(&(case.seed, ri, &case.reqs[ri], &case.peers, attempts, r.dropped, r.answer.as_ref().map(|a| a.is_ok())));
+            obs.eval((attempts >= 2).then_some(digest));
+            if r.dropped {
+                obs.label("request-of-dropped-caller");
+                continue;
+            }
+            if w.stopped {
+                obs.check(r.answer.is_some(), "C32:no-answer-after-stop", || format!("request #{ri}: caller has no answer although the client was stopped"))?;
+                if r.submitted_after_stop {
+                    obs.check(matches!(r.answer, Some(Err(ErrClass::Cancelled))), "C32:request-after-stop-not-cancelled", || format!("request #{ri} submitted after stop was answered with {:?}", r.answer.as_ref().map(|a| a.as_ref().map(|v| v.len()))))?;
+                }
+                continue;
+            }
+            if r.answer.is_some() {
+                continue;
+            }
+            obs.check(!r.sends.iter().any(|s| matches!(s.delivered, Some(Delivered::Valid(_)))), "C32:valid-response-not-answered", || format!("request #{ri}: a valid response was delivered but the caller has no answer at quiescence"))?;
+            // unanswered at quiescence: legitimate only while no peer of the required kind is connected
+            obs.check(attempts < 3, "C32:unanswered-after-three-attempts", || format!("request #{ri}: three attempts were answered but the caller has no answer"))?;
+            if attempts < 2 {
+                obs.check(!any_connected, "C32:unanswered-with-connected-peer-at-quiescence", || {
+                    format!("request #{ri}: {attempts} attempt(s) made, all answered; a connected peer exists and scheduling ticks passed, but the request was neither retried nor answered")
+                })?;
+                obs.label("waiting-for-any-peer-at-quiescence");
+            } else {
+                obs.check(!archival_connected, "C32:unanswered-with-archival-peer-at-quiescence", || {
+                    format!("request #{ri}: two attempts failed; a connected archival peer exists and scheduling ticks passed, but the third attempt was not made")
+                })?;
+                obs.label("waiting-for-archival-peer-at-quiescence");
+                if w.d.need_archival > 0 {
+                    obs.label("need-archival-peers-event");
+                }
+            }
+        }
+        Ok(())
+    })
+}
+
+pub fn run(ctx: &mut Ctx) {
+    ctx.assume("hook lumina_node::verif::header_ex_client_sim forwards 1:1 to HeaderExClientHandler / PeerTracker (real handler, real tracker; only the RequestSender is a recorder)");
+    ctx.assume("peer state (connected / archival) at send time is read from the real PeerTracker right after the scheduling call, with no harness action in between");
+    ctx.assume("the client picks peers with thread_rng: the oracle is independent of the choice (sends are attributed by the unique origin/hash of each request and judged against the peer actually chosen)");
+    ctx.assume("when the harness disconnects a peer it fails the requests in flight to that peer with ConnectionClosed, as libp2p request-response does");
+    ctx.assume("'at most one answer' is structural (tokio oneshot); what is checked is which value arrives and that nothing is sent for the request afterwards");
+    ctx.assume("liveness is judged only at quiescence: every outstanding answer delivered, >= 2 scheduling ticks (250 ms virtual each) passed with no further send; 'no send after the caller dropped its receiver' is taken from DESIGN.md's mutant list (caller cancellation)");
+    ctx.essential(&[
+        "retry-sent",
+        "third-send-to-archival-peer",
+        "answered-ok-first-attempt",
+        "answered-ok-second-attempt",
+        "answered-ok-third-attempt",
+        "answered-final-error-after-three-attempts",
+        "waiting-for-archival-peer-at-quiescence",
+        "waiting-for-any-peer-at-quiescence",
+        "cancelled-by-stop",
+        "caller-dropped-with-attempt-in-flight",
+        "peer-disconnected-with-request-in-flight",
+    ]);
+    ctx.set_shrink_iters(800);
+    let cases = ctx.tier.pick(4000, 120_000);
+    let max_steps = ctx.tier.pick(40, 60);
+    let reps = replay_reps();
+    ctx.proptest(
+        "retry-scripts",
+        "per case: 0..8 peers (connected?, trusted?, archival?), 1..6 non-head requests (height ranges of 1..3 / by hash) with unique origins, a 3-entry outcome script per request (valid, valid prefix, invalid header, wrong header, too many, NotFound, Invalid status, outbound failure) and 0..40 harness steps (submit, tick, deliver one outstanding answer, drop a caller, connect / disconnect / mark-archival a peer) with an optional stop; then drain to quiescence. One evaluation per request; non-trivial = request that was sent at least twice (a retry happened); distinct by (seed, request, script, peer population, attempts, fate)",
+        cases,
+        move || case_strategy(max_steps),
+        move |case, obs| {
+            for _ in 0..reps {
+                run_case(case, obs)?;
+            }
+            Ok(())
+        },
+    );
+    if BUDGET_OVERRUN.load(Ordering::SeqCst) {
+        ctx.inconclusive("a simulation exceeded the harness's step budget or had two copies of one request in flight, which the harness cannot order");
+    }
 }
